@@ -2,6 +2,10 @@
 scripted layout sequences.  stdin: JSON list of cases, stdout: JSON list of results.
 
 case = {"term": "kitty"|"konsole"|"other", "ksup": bool, "size": [cols, rows], "z_start": int|None,
+        "ident": ["kitty", version] | ["konsole", version] | ["forced", name]   the terminal's identity (default by
+                 `term`: kitty 0.32.2 / konsole 22.12.3 / forced support on "wezterm"); the library identifies
+                 the terminal itself (KittyImage.is_supported() on the stubbed name/version and an OK reply to
+                 the graphics query); "forced": it is not identified and KittyImage.forced_support = True,
         "slots": {name: spec}, "steps": [step, ...]}
 spec = {"kind": "kitty"|"iterm2"|"block", "img": int, "upscale": bool,
         "cls": 0 (UrwidImage) | 1 (a subclass) | 2 (a subclass of that subclass) | 3 (another subclass),
@@ -66,6 +70,7 @@ from PIL import Image  # noqa: E402
 from urwid import canvas as ucanvas  # noqa: E402
 
 from term_image.image import BlockImage, ITerm2Image, KittyImage  # noqa: E402
+from term_image.image import kitty as _kitty_mod  # noqa: E402
 from term_image.widget import UrwidImage, UrwidImageCanvas, UrwidImageScreen  # noqa: E402
 from term_image.widget import _urwid as _urwid_mod  # noqa: E402
 
@@ -174,9 +179,35 @@ class Case:
         self.case = case
         self.term = case["term"]
         name = {"kitty": "kitty", "konsole": "konsole", "other": "wezterm"}[self.term]
-        tests.set_terminal_name_version(name, "22.12.3" if name == "konsole" else "")
-        KittyImage._supported = bool(case.get("ksup", True))
+        # the IDENTITY of the terminal: ["kitty", version] | ["konsole", version] | ["forced", name]
+        # (an unidentified terminal implementing the kitty protocol; the application forces support)
+        ident = case.get("ident") or {"kitty": ["kitty", "0.32.2"], "konsole": ["konsole", "22.12.3"],
+                                      "other": ["forced", "wezterm"]}[self.term]
+        if (ident[0] == "forced") != (self.term == "other") or (ident[0] != "forced" and ident[0] != self.term):
+            raise ValueError(f"identity {ident!r} on terminal {self.term!r}")
+        version = ident[1] if ident[0] != "forced" else ""
+        name = ident[1] if ident[0] == "forced" else name
+        tests.set_terminal_name_version(name, version)
         KittyImage._forced_support = False
+        KittyImage._KITTY_VERSION = ()
+        KittyImage._TERM = KittyImage._TERM_VERSION = ""
+        if not case.get("ksup", True):
+            KittyImage._supported = False
+        else:
+            # the library identifies the terminal ITSELF: KittyImage.is_supported() with the terminal's
+            # reply to the graphics query (kitty, Konsole and WezTerm answer OK) and its name / version;
+            # what it records (_KITTY_VERSION, ...) is its own doing
+            KittyImage._supported = None
+            saved_query = _kitty_mod.query_terminal
+            _kitty_mod.query_terminal = lambda *a, **k: b"\x1b_Gi=31;OK\x1b\\\x1b[?62;c"
+            try:
+                identified = KittyImage.is_supported()
+            finally:
+                _kitty_mod.query_terminal = saved_query
+            if identified != (ident[0] != "forced"):
+                raise ValueError(f"identity {ident!r}: KittyImage.is_supported() = {identified}")
+            if not identified:
+                KittyImage.forced_support = True      # the documented way for other kitty-protocol terminals
         ITerm2Image._supported = True
         # what ITerm2Image.is_supported() records on a real terminal
         ITerm2Image._TERM = name if name in ("konsole", "wezterm") else ""
